@@ -22,7 +22,7 @@ var getMethodResults = []string{
 	"abi.GetAmmContractData_StormResult", "abi.GetChannelDataResult", "abi.GetCollectionDataResult",
 	"abi.GetDelegationStateResult", "abi.GetExchangeSettings_StormResult", "abi.GetExecutorBalances_StormResult",
 	"abi.GetExecutorVaultsWhitelist_StormResult", "abi.GetFixPriceDataV4Result", "abi.GetJettonDataResult",
-	"abi.GetLpData_MegatonResult", "abi.GetOracleData_StormResult", "abi.GetPoolFullDataResult",
+	"abi.GetLpData_MegatonResult", "abi.GetMultisigDataResult", "abi.GetOracleData_StormResult", "abi.GetPoolFullDataResult",
 	"abi.GetPositionManagerContractData_StormResult", "abi.GetReferralData_StormResult",
 	"abi.GetReferralVaultsWhitelist_StormResult", "abi.GetRouterData_StonfiResult",
 	"abi.GetVaultContractData_StormResult", "abi.GetVaultWhitelistedAddresses_StormResult",
